@@ -9,6 +9,7 @@ import SJ.Drv.C20
 import SJ.Drv.C05
 import SJ.Drv.C03
 import SJ.Drv.C17
+import SJ.Drv.C07
 /-!
 `sjdriver` — reads case lines `op args… => impl-observation` on stdin, runs the Lean model and the
 executable specification on each, prints
@@ -31,6 +32,7 @@ def allHandlers : List (String × Handler) :=
     C05.handlers,
     C03.handlers,
     C17.handlers,
+    C07.handlers,
   ]
 
 def findHandler (op : String) : Option Handler := (allHandlers.find? (·.1 == op)).map (·.2)
